@@ -11,7 +11,7 @@ def run(tier, seed, replay=None):
                     ["ImsaakFollowsExtremeFajr"])
     leg = tlc_must_fail("PrayerDay", cfg, expect="ImsaakFollowsExtremeFajr", workers=6, heap="6g")
     rep.add_tlc(leg)
-    n = 400000 if tier == "thorough" else 14000
+    n = 400000 if tier == "thorough" else 18000
     info, events = validate_events(rep, "C12", ["--n", n], "c12", heap="12g" if tier == "thorough" else "6g")
     rep.distinct_nontrivial = len({(e["kind"], e["key"], e["d"], e["site"]["lat"], e["date"]["dn"], e["p"]["meth"]) for e in events
                                    if e["a"] != e["b"] or e["kind"] in ("defw",)})
